@@ -168,9 +168,12 @@ CLAIMED["C14"] = _xh(
     "bounded symbolic model checking, partial: None/bool/short strings, every integer (unbounded, plus the 32-digit band), "
     "finite floats and both infinities, lists of <=2 values survive the write/read mapper chain with value and type; whole "
     "forms of six kinds (bool, int, float incl. inf, string, choice, object uuid) keep data value and enabled state for all "
-    "2^5 optional/enabled/groupOptional switch combinations; disabling by None survives. Entity promotion, workspace "
-    "paths, drillhole-group data and range forms are outside the claim.",
+    "2^5 optional/enabled/groupOptional switch combinations; disabling by None survives; data-or-value routing. File level: "
+    "the real write_ui_json / read_ui_json with a workspace on disk is explored over all optional/enabled/isValue switch "
+    "combinations (identifiers promoted to the same entities, workspace path re-opened, demotion returns the identifiers). "
+    "Drillhole-group data, range and file forms are outside the claim.",
 )
+CLAIMED["C14"]["engine"] = "xh+symx"
 
 CLAIMED["C06"] = {
     "engine": "xh+symx",
